@@ -98,7 +98,7 @@ struct Interp {
 
   int add_node(cbor_item_t* it, int type, bool indef, size_t cap, const ref::Node& leaf) {
     MNode n; n.item = it; n.type = type; n.indef = indef; n.cap = cap; n.leaf = leaf;
-    n.serial = use_va ? va::peek_serial(it) : 0;
+    n.serial = use_va ? va::serial_containing(it) : 0;
     nodes.push_back(n);
     return (int)nodes.size() - 1;
   }
